@@ -68,6 +68,9 @@ CHECKS = {
     "C13": dict(level="model_checking", ref="7/C13", technique="TLA+ spec (Pipeline.tla) checked by TLC: Cancel ~> Returned for every worker; every blocking situation realised on the real worker, cancelled, observation judged by TLC (PipelineTrace.tla)",
                 text="TLC proves cancellation leads to return for the three workers in every reachable state (weak fairness). 21 blocking situations (opening, idle read, partial record, blocked hand-off with capacities 0/1/4/64, full buffer, flood; select loop idle/busy/with pending login) are established on the real workers with real FIFOs; return within 2 s, error reported, nothing delivered after return.",
                 note="Trusted: TLC; the state-establishing logic of harness/cmd/workers (FIONREAD, channel lengths); wall-clock bounds."),
+    "C20": dict(level="model_checking", ref="7/C20", technique="TLA+ spec of the directory reader (DirReader.tla: real offset/lastSz algorithm next to the ideal) checked by TLC; every scenario replayed on the real LogDirReader (in-memory fs through the verif constructor, real files for the initial order) and judged by TLC (DirReaderTrace.tla)",
+                text="TLC: for every sequence of append / partial append / complete / rotate / truncate / create up to the bound over eight initial directory contents (incl. 12 rotations and suffixes up to 999) the modelled tailing algorithm delivers exactly the ideal sequence; the two pinned variants are rejected. All scenarios are replayed on the real reader with lines shorter and longer than the read buffer; delivered lines are compared by TLC with the ideal.",
+                note="Trusted: TLC; the in-memory file system and event scripting of harness/cmd/dirreaderh; 'each event processed before the next change' is enforced by a barrier event."),
 }
 
 ALL = ["C%02d" % i for i in range(1, 21)]
